@@ -2,19 +2,24 @@ use pvh::ast::*;
 use pvh::run::{self, Limits, Mode};
 fn main() {
     pvh::guard::install();
+    // q0; u=1 v=2 w=3 a=4 p=5 r=6 ; m=7
     let v = |i: u32| Term::Var(i);
-    let which: usize = std::env::args().nth(1).and_then(|s| s.parse().ok()).unwrap_or(0);
-    let a = vec![Goal::Eq(v(2), Term::Int(1)), Goal::Eq(v(3), Term::Int(1))];
-    let b = vec![Goal::Eq(v(0), Term::Int(2)), Goal::Eq(v(1), Term::Int(2))];
-    let mut body = vec![
-        Goal::Fd(FdGoal::Distinct(Term::list(vec![v(0), v(1)]))),
-        Goal::Conde(vec![a, b]),
-        Goal::Fd(FdGoal::InFdRange(Term::list(vec![v(0), v(1)]), 1, 3)),
+    let a = vec![
+        Goal::Fd(FdGoal::InFdRange(Term::list(vec![v(1), v(2), v(4), v(5), v(6)]), 0, 4)),
+        Goal::Fd(FdGoal::InFdRange(v(3), 2, 4)),
+        Goal::Fd(FdGoal::Lte(v(2), v(1))),
+        Goal::Fd(FdGoal::Lte(v(4), v(2))),
+        Goal::Eq(v(0), Term::list(vec![v(1), v(2), v(3), v(5)])),
+        Goal::Eq(Term::list(vec![v(5), v(3)]), Term::list(vec![v(6), v(4)])),
     ];
-    if which == 1 { body.push(Goal::ReadUser(v(4))); }
-    if which == 2 { body = vec![Goal::Fresh(vec![5,6,7,8], { let mut b2 = vec![Goal::Eq(v(0), Term::list(vec![v(5),v(6),v(7),v(8)]))]; b2.extend(body.iter().map(|g| pvh::model::interp::rename_goal(g, &[(0,5),(1,6),(2,7),(3,8)]))); b2 })]; }
-    let p = Program { nq: 5, body };
+    let b = vec![Goal::Fresh(vec![7], vec![Goal::Call(Rel::Member, vec![v(7), Term::ints(&(100..121).collect::<Vec<i64>>())]), Goal::Eq(v(0), Term::list(vec![v(7)]))])];
+    let p = Program { nq: 1, body: vec![Goal::Conde(vec![vec![Goal::Fresh(vec![1, 2, 3, 4, 5, 6], a)], b])] };
     println!("{}", p.show());
-    let out = run::run(&p, Mode::Bfs, Limits { max_answers: 100000, budget: 1 << 40 });
-    println!("{} answers {} end {:?}", out.answers.len(), run::show_answers(&out.answers), out.end);
+    let first = run::run(&p, Mode::Bfs, Limits::all());
+    let mut diff = 0;
+    for _ in 0..60 {
+        let o = run::run(&p, Mode::Bfs, Limits::all());
+        if o.answers != first.answers { diff += 1; }
+    }
+    println!("{} answers; {} of 60 rebuilds differ", first.answers.len(), diff);
 }
